@@ -384,9 +384,15 @@ type image struct {
 	took time.Duration
 }
 
+type imageSlot struct {
+	once sync.Once
+	im   *image
+	err  error
+}
+
 var (
 	imgMu  sync.Mutex
-	images = map[string]*image{}
+	images = map[string]*imageSlot{}
 )
 
 func imageBlock(base int) chainkit.BlockSpec {
@@ -431,20 +437,27 @@ func fastAppend(n *chainkit.Node, spec chainkit.BlockSpec) error {
 	return n.BC.Finalise(block, &core.StateUpdate{StateDiff: spec.Diff, OldRoot: oldRoot}, spec.Classes, nil)
 }
 
+// getImage: built once per process and image (different images concurrently).
 func getImage(base int, newState bool) (*image, error) {
-	imgMu.Lock()
-	defer imgMu.Unlock()
 	name := fmt.Sprintf("prune-image-%d-%v.gob", base, newState)
-	if im, ok := images[name]; ok {
-		return im, nil
+	imgMu.Lock()
+	slot, ok := images[name]
+	if !ok {
+		slot = &imageSlot{}
+		images[name] = slot
 	}
+	imgMu.Unlock()
+	slot.once.Do(func() { slot.im, slot.err = buildImage(name, base, newState) })
+	return slot.im, slot.err
+}
+
+func buildImage(name string, base int, newState bool) (*image, error) {
 	path := filepath.Join(vh.Scratch(), name)
 	if f, err := os.Open(path); err == nil {
 		im := &image{}
 		err = gob.NewDecoder(f).Decode(&im.kvs)
 		f.Close()
 		if err == nil && len(im.kvs) > 0 {
-			images[name] = im
 			return im, nil
 		}
 	}
@@ -472,8 +485,18 @@ func getImage(base int, newState bool) (*image, error) {
 			_ = os.Rename(path+".tmp", path)
 		}
 	}
-	images[name] = im
 	return im, nil
+}
+
+// imageStats: how long the images built by this process took.
+func imageStats(out *vh.Result) {
+	imgMu.Lock()
+	defer imgMu.Unlock()
+	for name, slot := range images {
+		if slot.im != nil && slot.im.took > 0 {
+			out.Stats["built_"+strings.TrimSuffix(name, ".gob")+"_ms"] = int(slot.im.took.Milliseconds())
+		}
+	}
 }
 
 func load(store db.KeyValueStore, kvs []faultkv.KV) error {
@@ -1180,7 +1203,7 @@ func (w *world) sweepBlock(bc *blockchain.Blockchain, store db.KeyValueReader, n
 		return
 	}
 	if st, closer, err := bc.StateAtBlockHash(th.Hash); err == nil {
-		if tst, tcl, terr := tw.StateAtBlockNumber(n); terr == nil {
+		if tst, tcl, terr := tw.StateAtBlockNumber(n); terr == nil && (w.c.Base == 0 || n+1 == w.oldestOr(n+1)) {
 			w.cmpState(zone+":state-by-hash", n, st, tst, add)
 			_ = tcl()
 		}
@@ -1192,16 +1215,23 @@ func (w *world) sweepBlock(bc *blockchain.Blockchain, store db.KeyValueReader, n
 
 // deepState: on an image (Base > 0) the database holds 8 MB aggregated filters, and every read of
 // the legacy state history copies the whole memory database (its batch iterator): there the VALUES
-// of historical state are compared around the oldest retained block and at the head only (that
-// every other block's state is served or refused as it must is still checked, and the scenarios
-// from genesis compare every value of every block).
+// of historical state are compared one block below and at the oldest retained block and at the head
+// only, three of them each (that every other block's state is served or refused as it must is still
+// checked, and the scenarios from genesis compare every value of every block).
 func (w *world) deepState(n uint64) bool {
 	if w.c.Base == 0 {
 		return true
 	}
 	o, err := pruner.OldestRetainedBlock(w.raw)
 	h, herr := core.GetChainHeight(w.raw)
-	return err != nil || herr != nil || n+1 == o || n == o || n == o+1 || n == h
+	return err != nil || herr != nil || n+1 == o || n == o || n == h
+}
+
+func (w *world) oldestOr(d uint64) uint64 {
+	if o, err := pruner.OldestRetainedBlock(w.raw); err == nil {
+		return o
+	}
+	return d
 }
 
 func (w *world) cmpState(sym string, n uint64, a, b core.StateReader, add adder) {
@@ -1215,7 +1245,11 @@ func (w *world) cmpState(sym string, n uint64, a, b core.StateReader, add adder)
 			add(sym+":wrong-value", fmt.Sprintf("state at %d, %s: node answers %s, the unpruned twin %s", n, what, va.String(), vb.String()))
 		}
 	}
-	for _, slot := range []uint64{1, 2, 3, 4} {
+	slots := []uint64{1, 2, 3, 4}
+	if w.c.Base > 0 {
+		slots = slots[:1]
+	}
+	for _, slot := range slots {
 		va, ea := a.ContractStorage(&contractAddr, chainkit.F(slot))
 		vb, eb := b.ContractStorage(&contractAddr, chainkit.F(slot))
 		chk(fmt.Sprintf("storage slot %d", slot), va, vb, ea, eb)
